@@ -74,7 +74,7 @@ static void layer1_config(Problem p, bool reduced) {
 // ---------------- layer 2 ----------------
 struct Mode { const char* name; const gsl_odeiv2_step_type* type; bool adaptive; double tol; };
 
-static void layer2_run(const Problem& p, const Mode& m, double tini, const char* oracle) {
+static void layer2_run(const Problem& p, const Mode& m, double tini, const char* oracle, int ncalls = 1) {
   Probe s(p, tini);
   s.Set_GSL_step(m.type); s.Set_AdaptiveStep(m.adaptive);
   if (m.adaptive) { s.Set_rel_error(1e-10); s.Set_abs_error(1e-10); s.Set_h(1e-4); }
@@ -82,18 +82,19 @@ static void layer2_run(const Problem& p, const Mode& m, double tini, const char*
   std::vector<double> y0 = probe_state(p, 0);
   s.set_flat(y0);
   double tau = 1.0;
-  count("evaluations"); { uint64_t h = ref::fnv(m.name, strlen(m.name), p.d * 1000 + p.nx * 100 + p.nrho * 10 + p.nsc); h = ref::fnv(p.sw, sizeof p.sw, h); h = ref::fnv(&tini, 8, h); h = ref::fnv(&p.family, 4, h); if (p.sw[0] || p.sw[1] || p.sw[2] || p.sw[3] || p.sw[4]) distinct(h); }
-  std::string ctx = "{\"layer\":2,\"problem\":" + pjson(p) + ",\"stepper\":" + jstr(m.name) + ",\"adaptive\":" + (m.adaptive ? "true" : "false") + ",\"t_ini\":" + jnum(tini) + ",\"oracle\":" + jstr(oracle) + "}";
+  count("evaluations"); { uint64_t h = ref::fnv(m.name, strlen(m.name), p.d * 1000 + p.nx * 100 + p.nrho * 10 + p.nsc); h = ref::fnv(p.sw, sizeof p.sw, h); h = ref::fnv(&tini, 8, h); h = ref::fnv(&p.family, 4, h); h = ref::fnv(&ncalls, 4, h); if (p.sw[0] || p.sw[1] || p.sw[2] || p.sw[3] || p.sw[4]) distinct(h); }
+  std::string ctx = "{\"layer\":2,\"evolve_calls\":" + std::to_string(ncalls) + ",\"problem\":" + pjson(p) + ",\"stepper\":" + jstr(m.name) + ",\"adaptive\":" + (m.adaptive ? "true" : "false") + ",\"t_ini\":" + jnum(tini) + ",\"oracle\":" + jstr(oracle) + "}";
   sample_every(g_idx++, 9001, ctx);
-  try { s.Evolve(tau); }
+  // ncalls > 1: the same interval covered by several consecutive Evolve calls (a later call starts at t != t_ini)
+  try { if (ncalls == 1) s.Evolve(tau); else { s.Evolve(0.4 * tau); if (ncalls == 3) { s.Evolve(0.25 * tau); s.Evolve(tau - 0.4 * tau - 0.25 * tau); } else s.Evolve(tau - 0.4 * tau); } }
   catch (const std::exception& ex) { violation(std::string("Evolve:throws:") + m.name + (m.adaptive ? ":adaptive" : ":fixed"), "{\"case\":" + ctx + ",\"what\":" + jstr(ex.what()) + "}"); return; }
   std::vector<double> got = s.get_flat(), want;
   if (!strcmp(oracle, "rk4-reference")) want = p.rk4(y0, tini, tini + tau, 4000); else want = p.exact(y0, tini, tini + tau);
-  double scale = std::max(maxabs(y0), maxabs(want)), e = maxdiff(got, want), tol = m.tol * scale;
+  double scale = std::max(maxabs(y0), maxabs(want)), e = maxdiff(got, want), tol = m.tol * scale * ncalls;
   maxstat(std::string("end_to_end_err/tol:") + m.name + (m.adaptive ? ":adaptive" : ":fixed"), e / tol);
   if (!(e <= tol)) violation(std::string("Evolve:solution-mismatch:") + swsig(p) + ":family" + std::to_string(p.family), "{\"case\":" + ctx + ",\"err\":" + jnum(e) + ",\"tol\":" + jnum(tol) + ",\"got\":" + jarr(got) + ",\"want\":" + jarr(want) + "}");
   // fixed stepping adds h to the clock nsteps times: allow one rounding per step
-  if (!(std::fabs(s.Get_t() - (tini + tau)) <= (8 + (m.adaptive ? 0 : 2000)) * ref::EPS * (std::fabs(tini) + tau))) violation("Evolve:clock", "{\"case\":" + ctx + ",\"t\":" + jnum(s.Get_t()) + "}");
+  if (!(std::fabs(s.Get_t() - (tini + tau)) <= ncalls * (8 + (m.adaptive ? 0 : 2000)) * ref::EPS * (std::fabs(tini) + tau))) violation("Evolve:clock", "{\"case\":" + ctx + ",\"t\":" + jnum(s.Get_t()) + "}");
   if (!s.views_coincide()) violation("Evolve:views-not-realiased", ctx);
 }
 
@@ -123,6 +124,12 @@ int main(int argc, char** argv) {
     if ((caseno++ % ar.nshards) != ar.shard) continue;
     Problem p; p.nx = nx; p.d = d; p.nrho = nrho; p.nsc = nsc; for (int b = 0; b < 5; b++) p.sw[b] = (sw >> b) & 1; p.family = 0; p.kappa = 0.3; p.kappa2 = p.sw[4] ? 0.0 : 0.2;
     layer2_run(p, m, tini, "closed-form");
+  }
+  // several consecutive Evolve calls over the same interval, every stepper mode, time-dependent terms
+  for (auto& m : modes) for (int d : dims2) for (int sw : {1, 9, 27, 31}) for (int ncalls : {2, 3}) {
+    if ((caseno++ % ar.nshards) != ar.shard) continue;
+    Problem p; p.nx = 2; p.d = d; p.nrho = 1; p.nsc = 1; for (int b = 0; b < 5; b++) p.sw[b] = (sw >> b) & 1; p.family = 0; p.kappa = 0.3; p.kappa2 = p.sw[4] ? 0.0 : 0.2;
+    layer2_run(p, m, 1.5, "closed-form", ncalls);
   }
   // family 1: non-commuting, time independent, no source: rho(t) = e^{K tau} rho0 e^{K^dagger tau}
   for (auto& m : modes) for (int nx = 1; nx <= 2; nx++) for (int d = 2; d <= 6; d++) for (int nrho = 1; nrho <= 2; nrho++) for (int sw = 1; sw <= 3; sw++) {
